@@ -16,6 +16,7 @@ namespace {
 struct Case {
     std::vector<uint8_t> bytes;
     int                  width{1};
+    int                  gen2{0}; // 1: decimal literals and exponents also come from the "nearly whole" list (absent in older replay files: 0)
     int                  deep{0}; // 0: generated tree; n > 0: parentheses nested (kDeepDepths[(n-1)/4]) deep in shape (n-1)%4
 };
 // around the widths a nesting counter can have (8 and 16 bits), and between
@@ -362,6 +363,10 @@ Num eval(const Node &n, Flags &fl) {
 }
 
 // ---------------------------------------------------------------------------------------------- generation
+static thread_local int g_gen2 = 0;
+// decimals a hair away from a whole number: as an exponent they are fractional (no value), as an operand of % they truncate
+static const char *const kNearWhole[] = {"3.0000000000001", "2.0000000000005", "1.9999999999999", "3.0000000000000004", "0.9999999999999999", "1.0000000000000002",
+                                         "4.000000000001",  "2.00000000000000044"};
 std::unique_ptr<Node> gen_leaf(Entropy &e, bool allow_real, bool allow_negative) {
     auto n  = std::make_unique<Node>();
     n->leaf = true;
@@ -384,6 +389,9 @@ std::unique_ptr<Node> gen_leaf(Entropy &e, bool allow_real, bool allow_negative)
                 static const char *d[] = {"0.5", "2.5", "0.25", "1.5", "10.75", "3.0", "0.1", "7.125"};
                 n->lk                   = LeafKind::Decimal;
                 n->text                 = d[e.below(8)];
+                if (g_gen2 != 0 && e.chance(30)) {
+                    n->text = kNearWhole[e.below(8)];
+                }
                 break;
             }
             n->lk   = LeafKind::UInt;
@@ -467,13 +475,19 @@ std::unique_ptr<Node> gen_expr(Entropy &e, int depth) {
     n->op                 = ops[e.below(17)];
     if (n->op == Op::Pow) {
         // integer operands sized so that the exact result fits 64 bits; a labelled share has fractional / real operands
-        bool frac = e.chance(8);
+        bool frac = e.chance(g_gen2 != 0 ? 20 : 8);
         n->l      = gen_leaf(e, frac, true);
         auto ex   = std::make_unique<Node>();
         ex->leaf  = true;
         if (frac && e.chance(50)) {
             ex->lk   = LeafKind::Decimal;
             ex->text = e.chance(50) ? "1.5" : "2.0";
+            if (g_gen2 != 0 && e.chance(60)) {
+                ex->text = kNearWhole[e.below(8)];
+                if (e.chance(25)) {
+                    ex->text = "-" + ex->text;
+                }
+            }
         } else if (e.chance(25)) {
             ex->lk   = LeafKind::NegInt;
             ex->text = "-" + std::to_string(1 + e.below(3));
@@ -600,6 +614,7 @@ std::unique_ptr<Node> deep_tree(Entropy &e, int code) {
 
 std::unique_ptr<Node> make_tree(const Case &c, std::string &text) {
     Entropy e(c.bytes);
+    g_gen2 = c.gen2;
     if (c.deep > 0) {
         auto t = deep_tree(e, c.deep);
         text.clear();
@@ -627,11 +642,12 @@ struct H {
     static rc::Gen<Case> gen() {
         using namespace rc;
         return gen::map(gen::tuple(gen::resize(120, gen::container<std::vector<uint8_t>>(gen::arbitrary<uint8_t>())), pbt::range<int>(0, 40 * kDeepCount),
-                                   pbt::pick<int>({1, 1, 1, 2, 4, 3})),
-                        [](std::tuple<std::vector<uint8_t>, int, int> t) {
+                                   pbt::pick<int>({1, 1, 1, 2, 4, 3}), pbt::pick<int>({0, 1, 1})),
+                        [](std::tuple<std::vector<uint8_t>, int, int, int> t) {
                             Case c;
                             c.bytes = std::get<0>(t);
                             c.width = std::get<2>(t);
+                            c.gen2  = std::get<3>(t);
                             // one case in forty is a deep one
                             c.deep = (std::get<1>(t) % 40 == 0) ? 1 + (std::get<1>(t) / 40) % kDeepCount : 0;
                             return c;
@@ -641,6 +657,7 @@ struct H {
     static bool from_fuzz(const uint8_t *d, size_t n, Case &c) {
         c.bytes.assign(d, d + n);
         c.width = (n != 0 && d[n - 1] % 5 == 3) ? 2 : (n != 0 && d[n - 1] % 5 == 4) ? 4 : 1;
+        c.gen2  = (n > 1 && (d[n - 2] & 1) != 0) ? 1 : 0;
         return true;
     }
     static std::string to_text(const Case &c) {
@@ -653,6 +670,7 @@ struct H {
         }
         kv.put("bytes", hex);
         kv.put("deep", c.deep);
+        kv.put("gen2", c.gen2);
         kv.put("width", c.width);
         std::string text;
         make_tree(c, text);
@@ -667,6 +685,7 @@ struct H {
             c.bytes.push_back(uint8_t(strtoul(hex.substr(i, 2).c_str(), nullptr, 16)));
         }
         c.deep = int(kv.geti("deep", 0));
+        c.gen2 = int(kv.geti("gen2", 0));
         c.width = int(kv.geti("width", 1));
         return c;
     }
